@@ -443,8 +443,20 @@ func runC17(c c17Case) (out ev.Outcome) {
 		if err != nil {
 			return fail("torsion-door", "a valid curve point (prime-order point + torsion point) was refused: %v", err)
 		}
-		if !mixed.EightInvEight().Equals(P) {
+		if !ptEq(mixed.EightInvEight(), P.X(), P.Y()) {
 			return fail("eightinv-torsion", "EightInvEight(P + T) != P for torsion point %d", c.Tor)
+		}
+		// a pure small-order point has nothing but its small-order component: the map sends it to the neutral element
+		pure, err := crypto.NewECPoint(cv.EC, tp.X, tp.Y)
+		if err != nil {
+			return fail("torsion-door", "a valid curve point (torsion point %d) was refused: %v", c.Tor, err)
+		}
+		var img *crypto.ECPoint
+		if p := mustNoPanic(func() { img = pure.EightInvEight() }); p != nil {
+			return fail("eightinv-torsion", "EightInvEight panicked on torsion point %d: %v", c.Tor, p)
+		}
+		if !ptEq(img, big.NewInt(0), big.NewInt(1)) {
+			return fail("eightinv-torsion", "EightInvEight(T) for the small-order point %d (%x,%x) is (%x,%x), not the neutral element", c.Tor, tp.X, tp.Y, img.X(), img.Y())
 		}
 	}
 	return out
